@@ -2,6 +2,10 @@ module verifharness
 
 go 1.13
 
-require massnet.org/mass v0.0.0
+require (
+	github.com/massnetorg/mass-core v0.0.0-20210816132538-be1c10e6c62a
+	github.com/syndtr/goleveldb v1.0.1-0.20210305035536-64b5b1c73954
+	massnet.org/mass v0.0.0
+)
 
 replace massnet.org/mass => /repo
